@@ -58,6 +58,7 @@ type FuncContract struct {
 	Variant       string
 	NaNParams     []string
 	Nullable      []string
+	Tables        []string
 }
 
 type SpecFunc struct {
@@ -279,6 +280,8 @@ func parseFuncDirective(fc *FuncContract, word, rest, file string, line int) {
 		fc.PanicsAllowed = strings.TrimSpace(rest) == "allowed"
 	case "noalias":
 		fc.NoAlias = true
+	case "tables":
+		fc.Tables = append(fc.Tables, splitNames(rest)...)
 	case "nullable":
 		fc.Nullable = append(fc.Nullable, splitNames(rest)...)
 	case "nan":
